@@ -272,12 +272,36 @@ theorem safe2_readField (t : Tables) (pieces : List Bytes) (name : Bytes) : Safe
   · exact Safe2.bind (safe2_readItems _ _ _) fun _ => Safe2.pure _
   · exact Safe2.bind (safe2_readItems _ _ _) fun _ => Safe2.pure _
 
+theorem safe2_skipStep (u : Unit) : Safe2 (skipStep u) := by
+  unfold skipStep
+  exact Safe2.bind safe2_readCStr fun _ => Safe2.pure _
+
+theorem skipStep_progress (u : Unit) (b : Buf) (r : Unit × Bool) (b' : Buf)
+    (hb : b.remaining ≠ 0) (h : skipStep u b = .ok (r, b')) : b'.remaining < b.remaining := by
+  unfold skipStep at h
+  rw [Par.bind_apply] at h
+  cases h1 : readCStr b with
+  | ok x =>
+    obtain ⟨item, b1⟩ := x
+    rw [h1] at h
+    have hp := readCStr_progress hb h1
+    cases h
+    exact hp
+  | err k => rw [h1] at h; cases h
+  | crash => rw [h1] at h; cases h
+
+theorem safe2_skipField : Safe2 skipField := by
+  unfold skipField
+  refine Safe2.bind safe2_readU8 fun _ => ?_
+  refine safe2_withRem fun b => ?_
+  exact safe2_loopBrk skipStep safe2_skipStep skipStep_progress _ _ b (by omega)
+
 theorem safe2_afterName (t : Tables) (pieces : List Bytes) : Safe2 (afterName t pieces) := by
   unfold afterName
   split
   · exact Safe2.fail _
   · split
-    · exact Safe2.pure _
+    · exact Safe2.bind safe2_skipField fun _ => Safe2.pure _
     · exact safe2_readField _ _ _
 
 theorem safe2_readSection (t : Tables) : Safe2 (readSection t) := by
